@@ -565,7 +565,18 @@ func (d *vpDriver) project() map[string]interface{} {
 	vp := map[string]interface{}{}
 	var ops []sdk.AccAddress
 	ops = append(ops, w.OpAddrs...)
-	pw, err := k.OperatorKeeper.GetVotePowerForChainID(ctx, ops, w.ChainIDNoRev)
+	// a query: the keeper panics ("Int64() out of bound") when a stored value exceeds int64; that is not a block
+	// phase, so it is recorded as a failed query and never takes the driver down
+	var pw []int64
+	var err error
+	func() {
+		defer func() {
+			if r := recover(); r != nil {
+				err = fmt.Errorf("PANIC: %v", r)
+			}
+		}()
+		pw, err = k.OperatorKeeper.GetVotePowerForChainID(ctx, ops, w.ChainIDNoRev)
+	}()
 	st["vpok"] = err == nil
 	for i := range w.OpAddrs {
 		if err == nil {
